@@ -23,6 +23,8 @@ pub fn schedules(thorough: bool) -> Vec<&'static str> {
         "30 6 * * 2-7", "0 0 15 * 3-7",
         // a restricted month with both day fields free (whole allowed blocks separated by long gaps)
         "0 0 * 2 *",
+        // every minute of one weekday (all other fields free)
+        "* * * * 1",
     ];
     if thorough {
         v.extend([
@@ -48,6 +50,8 @@ pub fn starts() -> Vec<i64> {
         unix_of(2023, 2, 2, 0, 0, 0), unix_of(2023, 2, 26, 6, 30, 0), unix_of(2024, 2, 10, 12, 0, 1),
         // around 2100 (not a leap year: 29 February is eight years apart) and a far year
         unix_of(2096, 2, 29, 0, 0, 30), unix_of(2099, 12, 31, 23, 59, 59), unix_of(2100, 2, 28, 23, 59, 0), unix_of(2400, 2, 28, 12, 0, 0),
+        // ten minutes before the end of a Monday (a run of matching minutes that ends at midnight)
+        unix_of(2024, 1, 1, 23, 50, 10),
         // clocks far from the epoch: around 2^63 and 2^64 nanoseconds after 1970, and five- and six-digit years
         unix_of(2262, 4, 11, 23, 47, 16), unix_of(2554, 7, 21, 23, 30, 0), unix_of(2554, 7, 21, 23, 34, 33), unix_of(3000, 6, 15, 12, 0, 30), unix_of(9999, 12, 31, 23, 59, 30), unix_of(100_000, 2, 28, 23, 59, 59),
     ]
